@@ -140,13 +140,23 @@ int main(int argc, char** argv) {
     add(kind, {2}, 2, 3, 0, 0, 1, 3);
     add(kind, {3}, 3, 3, 0, 0, 1, 2);
     add(kind, {4}, 4, 2, 0, 0, -1, 2);
-    // reinit to a different count between regions (both directions)
+    // reinit to a different count between regions (both directions), after
+    // an EVEN and after an ODD number of waits (sense-reversing barriers keep
+    // per-thread flags whose parity survives a careless reinit), and reinit to
+    // the SAME count
     add(kind, {3}, 3, 2, 2, 2, 1, 2);
     add(kind, {3}, 2, 2, 3, 2, 1, 2);
+    add(kind, {3}, 3, 1, 2, 2, 1, 2);
+    add(kind, {3}, 2, 3, 3, 1, 1, 2);
+    add(kind, {2}, 2, 1, 2, 2, 1, 3);
     if (kind == "topo" || kind == "system") {
       add(kind, {1, 1}, 2, 3, 0, 0, 1, 3);
       add(kind, {2, 1}, 3, 3, 0, 0, 1, 2);
-      add(kind, {2, 2}, 4, 2, 0, 0, -1, 2);
+      // a non-leader thread on a NON-ROOT socket (its leader and the parent
+      // socket's leader both release it)
+      add(kind, {1, 2}, 3, 3, 0, 0, 1, 2);
+      add(kind, {1, 2}, 3, 1, 2, 2, 1, 2);
+      add(kind, {2, 2}, 4, 2, 0, 0, 1, 2);
       add(kind, {1, 1, 1, 1}, 4, 2, 0, 0, -1, 2);
       add(kind, {2, 1}, 3, 2, 2, 2, 1, 2);
       add(kind, {1, 1, 1}, 2, 2, 3, 2, 1, 2);
